@@ -1,7 +1,8 @@
 // link-time stand-ins used by reduced harness builds (tsan flavour: pool only)
 #include "common.hpp"
 namespace vh {
-__attribute__((weak)) std::string run_flow_profile(const vj::value&) { throw std::runtime_error("flow: not in this build"); }
+__attribute__((weak)) std::string run_flow_profile(const vj::value&) { throw std::runtime_error("flow: not in this build"); __attribute__((weak)) std::string run_grid_case(const vj::value&) { throw std::runtime_error("grid: not in this build"); }
+}
 __attribute__((weak)) std::string run_flow_rook(const vj::value&) { throw std::runtime_error("flow: not in this build"); }
 __attribute__((weak)) std::string run_flow_queen(const vj::value&) { throw std::runtime_error("flow: not in this build"); }
 __attribute__((weak)) std::string run_flow_bishop(const vj::value&) { throw std::runtime_error("flow: not in this build"); }
